@@ -765,7 +765,7 @@ TOP:
 				ov = ov.Elem()
 			}
 			if ov.Kind() == reflect.Struct {
-				if fv := ov.FieldByName(fd.goField); fv.IsValid() {
+				if fv := fieldByName(ov, fd.goField); fv.IsValid() {
 					value = fv.Interface()
 				}
 			}
@@ -796,6 +796,27 @@ TOP:
 				ea = append(ea, resWarn(field.line, field.col, "%T.%s returned more than 2 values", obj, field.Name))
 			}
 		}
+	}
+	return
+}
+
+// fieldByName is reflect.Value.FieldByName that gives the zero Value and
+// does not panic if the field is promoted from an embedded pointer that is
+// nil.
+func fieldByName(ov reflect.Value, name string) (fv reflect.Value) {
+	sf, ok := ov.Type().FieldByName(name)
+	if !ok {
+		return
+	}
+	fv = ov
+	for _, i := range sf.Index {
+		if fv.Kind() == reflect.Ptr {
+			if fv.IsNil() {
+				return reflect.Value{}
+			}
+			fv = fv.Elem()
+		}
+		fv = fv.Field(i)
 	}
 	return
 }
